@@ -73,11 +73,17 @@ func (w *World) newEngine(kind string) (storage.KvStorage, bool, error) {
 			splits = uniq
 		}
 		testutils.BootstrapWithMultiRegions(cluster, splits...)
-		store, err := tikv.NewTestTiKVStore(rpcClient, pdClient, nil, nil, 0)
-		if err != nil {
-			return nil, false, err
+		// several client connections over the one cluster, as in production (200 there): each has its own
+		// timestamp oracle and caches, and the adapter goes round them
+		var stores []*tikv.KVStore
+		for i := 0; i < 3; i++ {
+			store, err := tikv.NewTestTiKVStore(rpcClient, pdClient, nil, nil, 0)
+			if err != nil {
+				return nil, false, err
+			}
+			stores = append(stores, store)
 		}
-		st := itikv.NewKvStoreWithStorage([]*tikv.KVStore{store})
+		st := itikv.NewKvStoreWithStorage(stores)
 		w.closers = append(w.closers, func() { st.Close() })
 		return st, false, nil
 	}
